@@ -136,9 +136,23 @@ func waitFor(cond func() bool) bool {
 	return true
 }
 
+// walletOfKey maps a key of the dispatcher's map to the wallet whose public key (its X
+// coordinate) it was derived from, whatever else the key contains; -1 if none.
+func walletOfKey(k string) int {
+	if w, ok := keyHex[k]; ok {
+		return w
+	}
+	for w := range keys {
+		if strings.Contains(k, fmt.Sprintf("%064x", keys[w].X)) {
+			return w
+		}
+	}
+	return -1
+}
+
 func (wd *world) isBusy(w int) bool {
 	for _, k := range wd.d.BusyKeys() {
-		if keyHex[k] == w {
+		if walletOfKey(k) == w {
 			return true
 		}
 	}
@@ -191,7 +205,7 @@ func (wd *world) settle() {
 func (wd *world) busyList() string {
 	var ws []int
 	for _, k := range wd.d.BusyKeys() {
-		if w, ok := keyHex[k]; ok {
+		if w := walletOfKey(k); w >= 0 {
 			ws = append(ws, w)
 		} else {
 			ws = append(ws, 99)
